@@ -4,9 +4,12 @@ SPELL = {"a": ["/a", "/A", " /a ", "a", "/a/.", "//a", "/x/../a"], "b": ["/b/c",
 
 def gen_case(rng, nops, variant):
     ops, nstreams = [], 0
-    for _ in range(nops):
+    for k in range(nops):
         r = rng.random()
-        if r < 0.2 or nstreams == 0:
+        # shutdown (media.UnregistAll): rare, usually near the end of the history
+        if nstreams > 0 and rng.random() < (0.2 if k >= nops - 3 else 0.01):
+            ops.append([10, 0])
+        elif r < 0.2 or nstreams == 0:
             ops.append([0, rng.choice(SPELL[rng.choice("abc")]), rng.random() < 0.6]); nstreams += 1
         elif r < 0.42:
             i = rng.randrange(nstreams)
@@ -42,6 +45,7 @@ def run(ck):
     ck.stream("histories", cases, "C05_run", "C05", "C05_ok",
               nontrivial=lambda c: sum(1 for o in c[1] if o[0] == 1) >= 2 and any(o[0] == 4 for o in c[1]),
               sig=lambda c, e, o: "registry-history")
-    return ck.finish(rule="random histories of new/regist/unregist/close/get/count/list/attach/detach/idle-tick over three paths in "
+    return ck.finish(rule="random histories of new/regist/unregist/close/get/count/list/attach/detach/idle-tick/unregist-all over three paths in "
                           "several spellings on the real media package (only live streams are registered: hist_wf); "
-                          "non-trivial = at least two registrations and one lookup")
+                          "non-trivial = at least two registrations and one lookup; the observation ends with the per-stream vector "
+                          "(live, successful attaches, Consumer.Close calls recorded by the attached consumers)")
